@@ -309,6 +309,23 @@ def reentrant_strategy(tier):
     return st.one_of(general, general, focused)
 
 
+def reentrant_strategy_small(tier):
+    """The same program language with small size bounds: the byte stream libFuzzer mutates must stay within
+    Hypothesis' buffer limit for (almost) every input, otherwise the input is discarded before it runs."""
+    act = act_strategy()
+    rebind = st.sampled_from([["peer_new"], ["peer_none"], ["gc"], ["peer_self"], ["new_dict"], ["remove_trait", "s"],
+                              ["remove_trait", "a"], ["add_trait", "s", 6], ["raise"]])
+    # (a tuple mapped to a dict: fixed_dictionaries with >= 4 keys is never accepted by fuzz_one_input in Hypothesis 6.168)
+    keys = ["script", "instance_traits", "prog", "reraise", "gc_stress"]
+    return st.tuples(
+        st.dictionaries(st.sampled_from(SITES), st.lists(st.one_of(rebind, act), min_size=1, max_size=2), max_size=2),
+        st.lists(st.sampled_from(["s", "a", "i", "l"]), max_size=1),
+        st.lists(act, min_size=1, max_size=6),
+        st.booleans(),
+        st.booleans(),
+    ).map(lambda t: dict(zip(keys, t)))
+
+
 def reentrant_run(case, ctx):
     SCRIPT.clear()
     SCRIPT.update(case["script"])
@@ -641,6 +658,11 @@ def stages(tier):
     out = [reuse_stage(m, s, d, tier) for m, s, d in REUSE]
     out.append({"name": "reentrant", "kind": "hyp", "strategy": reentrant_strategy, "run": reentrant_run, "flavour": "asan",
                 "examples": {"quick": 600, "thorough": 20000}, "shards": 16})
+    if tier == "thorough":
+        # coverage-guided: libFuzzer (edge counters inside ctraits.so, ASan) mutates the byte stream of the re-entrant
+        # program strategy
+        out.append({"name": "fuzz-reentrant", "kind": "fuzz", "flavour": "fuzz", "strategy": reentrant_strategy_small,
+                    "run": reentrant_run, "shards": 8, "max_len": 1024, "runs": {"quick": 2000, "thorough": 160000}})
     out.append({"name": "protocol", "kind": "enum", "gen": protocol_gen, "run": protocol_run, "flavour": "asan", "shards": 8,
                 "exhaustive": True})
     out.append({"name": "refcount", "kind": "enum", "gen": refcount_gen, "run": refcount_run, "flavour": "plain", "shards": 4,
